@@ -81,12 +81,31 @@ def check(col: Collector, tier: str):
     # ---------------- R2/R3 writers and coverage
     writes = eff.all_writes()
     col.info["write_sites"] = len(writes)
+    # what the translation entry points (and everything they call, reset excluded) write
+    during = set()
+    seen_f = set()
+    work = [ex.methods[en] for en in ("apply_ast_transformations", "write_cpp_files") if en in ex.methods]
+    for k in repo.subclasses(ex):
+        work += [k.methods[en] for en in ("apply_ast_transformations", "write_cpp_files") if en in k.methods]
+    while work:
+        g = work.pop()
+        if g.qual in seen_f or g.name == "reset":
+            continue
+        seen_f.add(g.qual)
+        during |= {w.root for w in eff.summaries[g.qual].writes}
+        for n in ast.walk(g.node):
+            if isinstance(n, ast.Call):
+                work.extend(repo.resolve_call(g, n))
+    col.info["functions_reachable_from_translation_entry_points"] = len(seen_f)
     col.floor("C07.R3", 6)
     cells: Dict[str, List] = {}
     for w in writes:
         f = w.func
         # construction-time writes of an executor's own attributes, and reset itself, are not translation effects
         if w.root.startswith("S:") and f.name == "__init__":
+            continue
+        # an executor attribute written only by the caller's configuration methods (never by a translation step) is configuration
+        if w.root.startswith("S:") and w.root not in during and w.root[2:] not in CONFIG_ATTRS:
             continue
         if f.name == "reset" and f_cls(f) is not None and f_cls(f).qual in eff.exec_classes:
             continue
@@ -125,10 +144,21 @@ def check(col: Collector, tier: str):
     # every executor instance attribute is either config (never written later) or covered by reset
     for cell in sorted(eff.instance_state):
         attr = cell[2:]
-        if attr in CONFIG_ATTRS:
+        if attr in CONFIG_ATTRS or cell not in during:
             continue
         col.add("C07.R3", cell, "instance-cell-covered-by-reset", covered.get(cell) == "fresh" or _reinit_at_entry(ex, cell, cells.get(cell, [])),
                 f"executor attribute {attr} holds per-translation state and must be re-initialised by reset()", reset.loc)
+    # what reset() clears must be per-query state: an executor attribute that the translation entry points never write
+    # (set by the constructor or a configuration method such as add_extended_md) is configuration - clearing it makes the
+    # second query on an executor see a differently configured executor than the first
+    own_writes = {w.root for w in writes if w.func.name not in ("__init__", "reset") and f_cls(w.func) is not None and f_cls(w.func).qual in eff.exec_classes}
+    col.floor("C07.R9", 3)
+    for cell in sorted(c for c in covered if c.startswith("S:")):
+        writers = sorted({w.func.short for w in writes if w.root == cell and w.func.name not in ("__init__", "reset")})
+        per_query = cell in during
+        col.add("C07.R9", cell, "reset-clears-only-what-a-translation-writes", per_query,
+                f"executor.reset() re-initialises {cell[2:]}, which no translation step writes (writers besides the constructor: {writers}): it is configuration "
+                "given by the caller, and the query after the first on the same executor is translated without it", reset.loc)
     # class-level attributes holding a computed/mutable value are process-wide state
     for cell, node in sorted(eff.class_state.items()):
         cq = cell[2:].rpartition(".")[0]
@@ -165,6 +195,66 @@ def check(col: Collector, tier: str):
         col.add("C07.R3b", f"{k.name}.reset", "re-adds-constructor-defaults", init_calls == reset_calls and bool(init_calls),
                 f"defaults added at construction {sorted(init_calls)} vs re-added by reset {sorted(reset_calls)}", r.loc)
 
+    # ---------------- R10 the defaults a backend registered are still there when ITS next translation starts
+    # they live in the process-wide registry that EVERY executor's reset() empties; only the resetting executor re-adds its own
+    col.floor("C07.R10", 3)
+    base_clears = sorted(c for c in covered if c.startswith("G:"))
+    aat0 = ex.methods["apply_ast_transformations"]
+    for k in repo.subclasses(ex):
+        r = k.methods.get("reset")
+        if r is None:
+            continue
+        dcalls = sorted({call_name(c) for c in ast.walk(r.node) if isinstance(c, ast.Call) and call_name(c).startswith("define_default")})
+        if not dcalls:
+            continue
+        entry = k.methods.get("apply_ast_transformations", aat0)
+        # re-registered at the start of a translation: directly, or through a hook method the entry point calls on self
+        reg = False
+        for c in walk_no_nested(entry.node):
+            if isinstance(c, ast.Call):
+                if call_name(c) in dcalls:
+                    reg = True
+                if isinstance(c.func, ast.Attribute) and src(c.func.value) == "self" and c.func.attr != "reset":
+                    hook = k.methods.get(c.func.attr)
+                    if hook is not None and any(isinstance(x, ast.Call) and call_name(x) in dcalls for x in ast.walk(hook.node)):
+                        reg = True
+        # or the registry the defaults are written to is not shared by other executors
+        dwrites = set()
+        for dn in dcalls:
+            for g in repo.functions_named(dn):
+                if g.module.name.startswith(k.module.name.rpartition(".")[0]):
+                    dwrites |= eff.trans_writes().get(g.qual, set())
+        shared = sorted(set(base_clears) & dwrites)
+        col.add("C07.R10", k.name, "own-defaults-survive-other-executors-reset", reg or not shared,
+                f"{k.name} registers its default method types ({dcalls}) in {shared}, which every executor's reset() empties; it re-adds them only in its "
+                "own reset(), so after another backend's executor has handled a query the defaults are gone when this one starts its next translation "
+                "(history: create this executor; a query on another backend's executor; a query here)", r.loc)
+    # ---------------- R11 the caller's query AST is an input, not a scratch pad
+    # func_adl's passes are ast.NodeTransformers: they rewrite the tree they are given (extract_metadata removes the MetaData
+    # calls, the plug-in finder replaces call.func).  The caller keeps the tree (ObjectStream.value() can be called again).
+    col.floor("C07.R11", 1)
+    a0 = aat0.node.args.args[1].arg
+    first_use = None
+    for st in aat0.node.body:
+        for n in ast.walk(st):
+            if isinstance(n, ast.Call) and any(isinstance(x, ast.Name) and x.id == a0 for x in n.args):
+                first_use = n
+                break
+        if first_use is not None:
+            break
+    copied = False
+    if first_use is not None:
+        cn = call_name(first_use)
+        if cn in ("deepcopy", "copy"):
+            copied = True
+        else:
+            for g in repo.resolve_call(aat0, first_use):
+                if any(isinstance(c, ast.Call) and call_name(c) in ("deepcopy", "copy") for c in ast.walk(g.node)):
+                    copied = True
+    col.add("C07.R11", aat0.short, "callers-ast-copied-before-the-in-place-passes", copied,
+            f"the query tree received as `{a0}` goes straight into {call_name(first_use) if first_use is not None else '?'}(...), a NodeTransformer that edits it in place: "
+            "after one translation the caller's tree has lost its MetaData calls and carries this translation's plug-in nodes, so executing the same "
+            "query object again gives a different package", aat0.loc)
     # ---------------- R4 reset on every exit
     col.floor("C07.R4", 3)
     for name, need_normal in (("apply_ast_transformations", False), ("write_cpp_files", True)):
